@@ -1250,6 +1250,9 @@ func (p *Parser) quotedHdocWord() *Word {
 	stop := p.hdocStops[len(p.hdocStops)-1]
 	for ; ; r = p.rune() {
 		if r == runeEOF {
+			// The input ended within the body; the current token is still
+			// the newline before it, which would hide that from Incomplete.
+			p.tok = _EOF
 			return nil
 		}
 		for p.quote == hdocBodyTabs && r == '\t' {
